@@ -233,6 +233,7 @@ OP(insert_hint) {
   else vf_assert(g_cmp <= log_bound(n0) + 4, 19001);
   c.m.insert(v);
   vf_assert(r == c.s().begin() + c.m.rank(c.m.cls(v)) && *r == c.m.rep[c.m.cls(v)], 12001);   // returned iterator designates the equivalent element
+  vf_assert(r == c.s().begin() + c.m.rank(c.m.cls(v)), 3006);                                 // same element position as std::set (C03)
   // resulting set equals that of plain insert(v)
   {
     const FS &f = c.s(); unsigned n = c.m.count();
